@@ -303,6 +303,35 @@ func ruleR01_3(c *Check) {
 			return true
 		})
 	}
+	// every source is consulted: the loops over memtables, levels and the tables of a level are not
+	// left early (a value-log GC write-back puts an OLD version of a key into a NEWER memtable or
+	// level, so the first source that has the key need not have its newest version)
+	for _, name := range []string{"badger.DB.get", "badger.levelsController.get", "badger.levelHandler.get"} {
+		f := w.F(name)
+		var k keyer
+		f.walk(func(n ast.Node) bool {
+			b, ok := n.(*ast.BranchStmt)
+			if !ok || (b.Tok != token.BREAK && b.Tok != token.GOTO) {
+				return true
+			}
+			// a break that leaves a for/range loop of this function (not a switch/select inside it)
+			for p := w.parentOf(b); p != nil; p = w.parentOf(p) {
+				switch p.(type) {
+				case *ast.SwitchStmt, *ast.TypeSwitchStmt, *ast.SelectStmt:
+					if b.Label == nil {
+						return true
+					}
+				case *ast.ForStmt, *ast.RangeStmt:
+					r.Check(false, f, k.key("every source is consulted", w, b), b, "the search over the sources is left early: a later (older) source may hold a newer version of the key (value-log GC write-backs keep their original version)")
+					return true
+				case *ast.FuncLit, *ast.FuncDecl:
+					return true
+				}
+			}
+			return true
+		})
+		r.Check(true, f, "search loop examined for early exits", nil, "")
+	}
 	// source order
 	gm := w.F("badger.DB.getMemTables")
 	mt, imm := w.Field("badger.DB.mt"), w.Field("badger.DB.imm")
@@ -662,6 +691,10 @@ func propC01(c *Check) {
 	ruleR01_3(c)
 	ruleR01_4(c)
 	ruleR01_5(c)
+	// "no matter which compactions or value-log GC runs happen": what a GC write-back carries and
+	// which L0 tables a compaction may take (round-2 seeds broke the snapshot through them)
+	ruleR15_4(c)
+	ruleR12_1(c)
 	// iterators: within L0 the newer table precedes the older one in the merge (ties on identical
 	// key+version — a value-log GC write-back — must resolve to the newer copy)
 	ruleR12_3(c)
